@@ -353,10 +353,46 @@ func (p *Prog) storesTo(a *ssa.Alloc) []*ssa.Store {
 func (p *Prog) singleStore(a *ssa.Alloc) *ssa.Store {
 	sts := p.storesTo(a)
 	// ignore the zero-value initialisation stores of named results? (ssa does not emit them)
-	if len(sts) == 1 {
-		return sts[0]
+	if len(sts) != 1 {
+		return nil
 	}
-	return nil
+	st := sts[0]
+	// a local is only "equal to what was stored" if no load can see its zero value: the store is in
+	// the declaring function and comes before every load there (closures run after their creation,
+	// which the store must also precede)
+	if st.Parent() != a.Parent() {
+		return nil
+	}
+	if a.Referrers() != nil {
+		for _, r := range *a.Referrers() {
+			if r == ssa.Instruction(st) {
+				continue
+			}
+			rb, sb := r.Block(), st.Block()
+			if rb == nil || sb == nil {
+				continue
+			}
+			if rb == sb {
+				si, ri := -1, -1
+				for i, in := range sb.Instrs {
+					if in == ssa.Instruction(st) {
+						si = i
+					}
+					if in == r {
+						ri = i
+					}
+				}
+				if ri < si {
+					return nil
+				}
+				continue
+			}
+			if !sb.Dominates(rb) {
+				return nil
+			}
+		}
+	}
+	return st
 }
 
 func (p *Prog) calleeName(f *ssa.Function) string {
